@@ -3,6 +3,7 @@ package scen
 import (
 	"fmt"
 	"sort"
+	"strings"
 	"time"
 
 	"detsim"
@@ -119,7 +120,7 @@ func genC07(g GenCtx) interface{} {
 			}
 		}
 	}
-	sc.Kind = pick(rng, "subf", "subf", "clonef")
+	sc.Kind = pick(rng, "subf", "subf", "clonef", "subff", "cloneff", "subff-early", "cloneff-early")
 	sc.Stateful = rng.Intn(6) == 0 && !sc.Sibling
 	sc.Touch = rng.Intn(4) == 0
 	sc.Sim = SimCfg{Strategy: randStrategy(rng, libGoroutines), PermuteMaps: true, MaxSteps: 100000, EstSteps: 1500}
@@ -140,9 +141,13 @@ func runC07(sci interface{}) {
 	h := world.NewH(srv, world.FilterSpec{}, noRelist, false)
 	h.NoRelist = true
 	h.ExpectNoOverflow = true
+	early := strings.HasSuffix(sc.Kind, "-early")
+	if early {
+		srv.HoldFirstList = make(chan struct{})
+	}
 	h.Start()
 	detsim.SetInvariant(h.Invariant)
-	if !world.WaitClosed(h.Ctrl.Ready(), 1e9) {
+	if !early && !world.WaitClosed(h.Ctrl.Ready(), 1e9) {
 		detsim.Fail("not-ready", "controller not ready")
 	}
 	if sc.Sibling {
@@ -165,8 +170,32 @@ func runC07(sci interface{}) {
 	}
 	var fnode, reader, sib *world.NodeRT
 	var err error
-	h.NextStateful = sc.Stateful
-	if sc.Kind == "clonef" {
+	h.NextStateful = sc.Stateful && (sc.Kind == "subf" || sc.Kind == "clonef")
+	if strings.HasPrefix(sc.Kind, "subff") || strings.HasPrefix(sc.Kind, "cloneff") {
+		// a deferred node that gets its first filter before ("-early": the first
+		// list is still out) or after its parent is ready - what every join's
+		// destination side is; from then on it is a ready filtered node like any other
+		if strings.HasPrefix(sc.Kind, "cloneff") {
+			fnode, err = h.MakeNode(nil, "cloneff", world.FilterSpec{}, "none")
+			if err == nil {
+				reader, err = h.MakeNode(fnode, "sub", world.FilterSpec{}, "eager")
+			}
+		} else {
+			fnode, err = h.MakeNode(nil, "subff", world.FilterSpec{}, "eager")
+			reader = fnode
+		}
+		if err == nil {
+			err = h.Refilter(fnode, sc.Filters[0])
+		}
+		if early {
+			detsim.Settle()
+			detsim.Count("probe:deferred-node-filtered-before-its-parent-was-ready")
+			close(srv.HoldFirstList)
+			if !world.WaitClosed(h.Ctrl.Ready(), 1e9) {
+				detsim.Fail("not-ready", "controller not ready")
+			}
+		}
+	} else if sc.Kind == "clonef" {
 		fnode, err = h.MakeNode(nil, "clonef", sc.Filters[0], "none")
 		if err == nil {
 			reader, err = h.MakeNode(fnode, "sub", world.FilterSpec{}, "eager")
